@@ -40,6 +40,7 @@ class _G:
     lives = 0
     pokes = 0
     nudged_lives = 0
+    harness_exc = None
 
 
 def cb(site, obj=None, extra=None):
@@ -50,8 +51,12 @@ def cb(site, obj=None, extra=None):
     n = _G.cnt[site]
     rec = [site, wpilib.RobotController.getFPGATime(), extra]
     _G.log.append(rec)
-    for h in _G.hooks:
-        h(site, obj, rec, n)
+    try:
+        for h in _G.hooks:
+            h(site, obj, rec, n)
+    except BaseException as e:  # noqa  (a bug in the harness must never be swallowed by the robot's FMS handling)
+        _G.harness_exc = e
+        raise
     pat = _G.fault.get(site)
     if pat is not None and (pat == "every" or n == pat or (isinstance(pat, (list, tuple)) and n in pat)):
         rec.append("raised")
@@ -60,7 +65,11 @@ def cb(site, obj=None, extra=None):
 
 def fbval(site, obj=None):
     cb(site, obj)
-    return _G.fbval(site, _G.cnt[site])
+    try:
+        return _G.fbval(site, _G.cnt[site])
+    except BaseException as e:  # noqa
+        _G.harness_exc = e
+        raise
 
 
 def install():
@@ -183,6 +192,8 @@ class {cls}:
     MODE_NAME = {name!r}
     DEFAULT = {default}
 {extra}
+    def setup(self):
+        builtins._verif_cb({site!r} + '.modesetup', self)
     def on_enable(self):
         builtins._verif_cb({site!r} + '.on_enable', self)
     def on_iteration(self, tm):
@@ -246,6 +257,7 @@ def run_life(lay, history, fms=False, faults=None, hooks=(), fbvalue=None, obser
         raise core.WorkerPoisoned(None)
     install()
     _G.lives += 1
+    _G.harness_exc = None
     _G.log = []
     _G.cnt = collections.Counter()
     _G.fault = dict(faults or {})
@@ -387,6 +399,9 @@ def run_life(lay, history, fms=False, faults=None, hooks=(), fbvalue=None, obser
         g.clear()
         if not _G.poisoned:
             reset_world()
+    if _G.harness_exc is not None:
+        e, _G.harness_exc = _G.harness_exc, None
+        raise core.HarnessError(f"harness code raised inside a robot callback: {e!r}")
     if life.extra.get("nudges"):
         _G.nudged_lives += 1
     if life.hang:
@@ -471,7 +486,8 @@ def loop_model(lay, history, end=True):
     steps = []
     history = [EFFECTIVE[m] for m in history]
     cur = history[0]
-    steps.append(["createObjects"] + [c + ".setup" for c in hooked] + enter(cur) + iteration(cur))
+    msetup = [("modesetup", frozenset(("mode" if i == 0 else m) + ".modesetup" for i, m in enumerate(lay["modes"])))] if auto else []
+    steps.append(["createObjects"] + [c + ".setup" for c in hooked] + msetup + enter(cur) + iteration(cur))
     for m in history[1:]:
         s = []
         if m != cur:
@@ -487,8 +503,15 @@ def norm_sites(log_slice):
     """Observed sites of a step with the feedback block folded into one unordered element."""
     out = []
     blk = []
+    msb = []
     for rec in log_slice:
         s = rec[0]
+        if s.endswith(".modesetup"):
+            msb.append(s)
+            continue
+        if msb:
+            out.append(("modesetup", frozenset(msb)))
+            msb = []
         if s.endswith(".fb"):
             blk.append(s)
         else:
@@ -498,11 +521,17 @@ def norm_sites(log_slice):
                     out.append(("fb-duplicate", tuple(sorted(blk))))
                 blk = []
             out.append(s)
+    if msb:
+        out.append(("modesetup", frozenset(msb)))
     if blk:
         out.append(("fb", frozenset(blk)))
         if len(set(blk)) != len(blk):
             out.append(("fb-duplicate", tuple(sorted(blk))))
     return out
+
+
+def _unused():
+    pass
 
 
 def fmt_sites(x):
